@@ -60,10 +60,11 @@ class Module:
             raise AnalysisError(f"cannot parse {rel}: {e}")
         # inventory-anchored normalisation (sa/normalize.py): a no-op on the reference tree
         self.normalized = False
-        if os.environ.get("VERIF_NO_NORMALIZE") != "1":
+        norm_level = int(os.environ.get("VERIF_NORM_LEVEL", "2") or 2)
+        if os.environ.get("VERIF_NO_NORMALIZE") != "1" and norm_level > 0:
             try:
                 from .normalize import normalize_tree
-                self.normalized = normalize_tree(self.tree, rel)
+                self.normalized = normalize_tree(self.tree, rel, temporaries=norm_level >= 2)
             except Exception:
                 # a defect of the normaliser must never change a verdict: fall back to the tree as written
                 import warnings
